@@ -90,6 +90,12 @@ fn multi(total_columns: i32, convert_type: PatternType, n_notes: usize) {
 
 /// single-note arms: runs the real generate_core (real new_note) on a previous pattern of one note in a regular column
 fn arm(total_columns: i32, convert_type: PatternType) {
+    arm_excluding(total_columns, convert_type, u8::MAX);
+}
+
+/// `exclude`: a column the previous note is not in (the centre column of odd key counts, which the CYCLE guard sends on
+/// to the random arms)
+fn arm_excluding(total_columns: i32, convert_type: PatternType, exclude: u8) {
     let h = HitObject { pos: Pos::new(100.0, 192.0), start_time: 1000.0, kind: HitObjectKind::Circle };
     let map = Beatmap::default();
     let mut random = Random::new(1);
@@ -106,7 +112,7 @@ fn arm(total_columns: i32, convert_type: PatternType) {
             prev_pattern: &empty,
         };
         let c: u8 = kani::any();
-        kani::assume(c >= lower && i32::from(c) < total_columns);
+        kani::assume(c >= lower && i32::from(c) < total_columns && c != exclude);
         prev.add_note(&builder, c);
         std::mem::forget(builder);
     }
@@ -197,3 +203,37 @@ hp!(u10_hitpattern_rstair_k8, 8, PatternType::REVERSE_STAIR, true, 1);
 //@ bound: bounded: 4 keys; previous pattern = one note in any column
 //@ clause: as U10.hitpattern.rstair.k8
 hp!(u10_hitpattern_rstair_k4, 4, PatternType::REVERSE_STAIR, true, 1);
+//@ obl: id=U10.hitpattern.reverse.k4 harness=u10_hitpattern_reverse_k4 props=C19,C05 stubs=yes tier=quick kind=bounded
+//@ fns: HitObjectPatternGenerator::generate_core (REVERSE arm)
+//@ bound: bounded: 4 keys; previous pattern = any two notes in different columns
+//@ clause: as U10.hitpattern.reverse.k8
+hp!(u10_hitpattern_reverse_k4, 4, PatternType::REVERSE, false, 2);
+//@ obl: id=U10.hitpattern.stack.k7 harness=u10_hitpattern_stack_k7 props=C19,C05 stubs=yes tier=quick kind=bounded
+//@ fns: HitObjectPatternGenerator::generate_core (FORCE_STACK arm)
+//@ bound: bounded: 7 keys; previous pattern = any three notes in different columns
+//@ clause: as U10.hitpattern.stack.k8
+hp!(u10_hitpattern_stack_k7, 7, PatternType::FORCE_STACK, false, 3);
+//@ obl: id=U10.hitpattern.cycle.k4 harness=u10_hitpattern_cycle_k4 props=C19,C05 tier=quick kind=bounded
+//@ fns: HitObjectPatternGenerator::generate_core (CYCLE arm)
+//@ bound: bounded: 4 keys; previous pattern = one note in any column
+//@ clause: as U10.hitpattern.cycle.k8
+hp!(u10_hitpattern_cycle_k4, 4, PatternType::CYCLE, true, 1);
+//@ obl: id=U10.hitpattern.cycle.k7 harness=u10_hitpattern_cycle_k7 props=C19,C05 tier=quick kind=bounded
+//@ fns: HitObjectPatternGenerator::generate_core (CYCLE arm)
+//@ bound: bounded: 7 keys; previous pattern = one note in any column but the centre (the guard sends a centre note on to the random arms, which are not under contract)
+//@ clause: as U10.hitpattern.cycle.k8
+#[kani::proof]
+#[kani::unwind(18)]
+fn u10_hitpattern_cycle_k7() {
+    arm_excluding(7, PatternType::CYCLE, 3);
+}
+//@ obl: id=U10.hitpattern.stair.k4 harness=u10_hitpattern_stair_k4 props=C19,C05 tier=quick kind=bounded
+//@ fns: HitObjectPatternGenerator::generate_core (STAIR arm)
+//@ bound: bounded: 4 keys; previous pattern = one note in any column
+//@ clause: as U10.hitpattern.stair.k8
+hp!(u10_hitpattern_stair_k4, 4, PatternType::STAIR, true, 1);
+//@ obl: id=U10.hitpattern.stair.k7 harness=u10_hitpattern_stair_k7 props=C19,C05 tier=quick kind=bounded
+//@ fns: HitObjectPatternGenerator::generate_core (STAIR arm)
+//@ bound: bounded: 7 keys; previous pattern = one note in any column
+//@ clause: as U10.hitpattern.stair.k8
+hp!(u10_hitpattern_stair_k7, 7, PatternType::STAIR, true, 1);
